@@ -225,6 +225,9 @@ fn lists_dim<const D: usize>(rep: &Report, cn: &Cn, axis_values: &[f64], max_len
 
 fn main() {
     let args = parse_args();
+    if let Some(p) = &args.replay {
+        std::process::exit(vcore::replay::generic(p));
+    }
     silence_panics();
     let rep = Report::new("C17", &args);
     let thorough = args.tier == Tier::Thorough;
